@@ -50,11 +50,23 @@ fn during_unwind<R: Default>(f: impl FnOnce() -> R) -> R {
     slot.unwrap_or_default()
 }
 
-fn pair(a: usize, b: usize, form: &str, types: &Value) {
+fn pair(a: usize, b: usize, form: &str, types: &Value, primed: bool) {
+    let before0 = entry(fam::sig_addr(a));
+    let mut inj = in_lib(InjectorPP::new);
+    if primed {
+        // the gate's verdict does not depend on what the injector has installed before: the very same (target, fake) pair
+        // goes in through the unchecked entry points first (legal, `unsafe`), then the checked request follows
+        let _ = catch_unwind(AssertUnwindSafe(|| {
+            in_lib(|| unsafe {
+                let (p, _) = fam::sig_fake(b, "unchecked").unwrap();
+                inj.when_called_unchecked(fam::sig_target_unchecked(a)).will_execute_raw_unchecked(p)
+            })
+        }));
+        interpose::set_in_lib(false);
+    }
     let before = entry(fam::sig_addr(a));
     let os0 = os_calls();
     let live0 = interpose::owned_live();
-    let mut inj = in_lib(InjectorPP::new);
     let r = catch_unwind(AssertUnwindSafe(|| {
         in_lib(|| match form {
             "func" | "closure" => {
@@ -95,9 +107,9 @@ fn pair(a: usize, b: usize, form: &str, types: &Value) {
         works = json!(m >= 200 && (m % 100) as usize == b);
     }
     in_lib(|| drop(inj));
-    let restored = entry(fam::sig_addr(a)) == before;
+    let restored = entry(fam::sig_addr(a)) == before0;
     let orig_ok = if a == b || verdict == "refused" { fam::sig_call(a) == 100 + a as u32 } else { true };
-    emit(json!({"ev":"Pair","form":form,"a":a,"b":b,"ta":types[a],"tb":types[b],"verdict":verdict,"cls":cls,"msg":msg,
+    emit(json!({"ev":"Pair","form":form,"primed":primed,"a":a,"b":b,"ta":types[a],"tb":types[b],"verdict":verdict,"cls":cls,"msg":msg,
         "touched":touched,"works":works,"restored":restored && orig_ok}));
 }
 
@@ -106,6 +118,7 @@ fn run_pairs(sc: &Value) {
     let types = sc.get("types").cloned().unwrap_or(json!([]));
     let n = types.as_array().map(|x| x.len()).unwrap_or(0).min(fam::NFAM);
     let form = sc.get("form").and_then(|x| x.as_str()).unwrap_or("func").to_string();
+    let primed = sc.get("primed").and_then(|x| x.as_bool()).unwrap_or(false);
     for a in 0..n {
         for b in 0..n {
             let f2 = match form.as_str() {
@@ -118,7 +131,7 @@ fn run_pairs(sc: &Value) {
             if (form == "null-fake" || form == "null-target") && a != b {
                 continue;
             }
-            pair(a, b, &form, &types);
+            pair(a, b, &form, &types, primed);
         }
     }
 }
